@@ -136,7 +136,13 @@ def real_compiler_failure(chk, root):
     entry_stdout = sys.stdout
     cdir = root / "realfail"
     old_cflags = os.environ.get("CFLAGS")
-    info = {"mode": "real compiler, CFLAGS=-fno-such-flag-xyz", "form": "P1 mass matrix on an interval"}
+    info = {
+        "mode": "real compiler, CFLAGS=-fno-such-flag-xyz", "form": "P1 mass matrix on an interval (harness.sched.tiny_form)",
+        "repro": "cd /verif && CFLAGS=-fno-such-flag-xyz PYTHONPATH=/verif /venv/bin/python -c \"import logging, shutil, tempfile; "
+                 "import ffcx.codegeneration.jit as j; from harness import sched; h = logging.NullHandler(); "
+                 "logging.getLogger().addHandler(h); d = tempfile.mkdtemp(prefix='ffcxverif_')\ntry: j.compile_forms([sched.tiny_form()], cache_dir=d)\n"
+                 "except Exception as e: print(type(e).__name__, logging.getLogger().handlers)\nfinally: shutil.rmtree(d)\"",
+    }
     try:
         os.environ["CFLAGS"] = "-fno-such-flag-xyz"
         exc = None
